@@ -24,6 +24,7 @@ import sdoc as S  # noqa
 
 PROP = "C06"
 PRESENTATIONS = ["sources", "multidoc", "include_list", "includes", "multidoc_inc", "nested", "mixed", "inc_then_doc"]
+SAME_FILE = ["include_list_same", "includes_same", "nested_same"]
 ASSUME = ["CPython 3.12.1 / PyYAML of /venv; awesomeyaml imported from AY_REPO (default /repo)",
           "files are written to a fresh temporary directory; symlinks and permissions are not varied",
           "TLC results are for the bounded universes named in coverage.configs"]
@@ -50,6 +51,12 @@ def materialise(root, pres, docs, key=None):
     if pres == "multidoc":
         _w(os.path.join(main, "all.yaml"), "".join("---\n" + t for t in texts))
         return [os.path.join(main, "all.yaml")]
+    if pres.endswith("_same"):
+        # ONE file per distinct document: a document that occurs more than once in the sequence is the same file named
+        # (included) more than once - for the specification simply the same document again
+        first = {}
+        names = [first.setdefault(t, n) for n, t in zip(names, texts)]
+        pres = pres[:-len("_same")]
     for n, t in zip(names, texts):
         _w(os.path.join(main, "inc", n), t)
     rel = ["inc/" + n for n in names]
@@ -131,7 +138,8 @@ def _replay_one(beh):
     want = E.norm_expected(beh["x"])
     bad = []
     plain = build_presentation("sources", docs)
-    for pres in PRESENTATIONS:
+    # (a file included more than once: only sequences in which a document occurs more than once)
+    for pres in PRESENTATIONS + (SAME_FILE if len(set(beh["h"])) < len(beh["h"]) else []):
         got = plain if pres == "sources" else build_presentation(pres, docs)
         g = _cmp(got)
         ok = g == want or (isinstance(want, dict) and "e" in want and isinstance(g, dict) and "e" in g and pres != "sources")
@@ -148,15 +156,15 @@ def _replay_one(beh):
             return (not eff) and all(all_unsafe(c) for _, c in n["ch"])
         if "err" in ug or _cmp(ug) != {"d": [["s:k", want]]} or not all_unsafe(ug["ch"][0][1]):
             bad.append("key_unsafe")
-    for key in ("k", "a"):
-        got = build_presentation("key", docs, S.skey(key))
+    for key, kp in [("k", "key"), ("a", "key")] + ([("k", "key_same")] if len(set(beh["h"])) < len(beh["h"]) else []):
+        got = build_presentation(kp, docs, S.skey(key))
         g = _cmp(got)
         if isinstance(want, dict) and "e" in want:
             ok = isinstance(g, dict) and "e" in g
         else:
             ok = g == {"d": [["s:" + key, want]]}
         if not ok:
-            bad.append("key:" + key)
+            bad.append(kp + ":" + key)
     return None if not bad else {"h": beh["h"], "bad": bad}
 
 
@@ -416,7 +424,7 @@ def _run(prop, tier, seed, replay, wd):
     jobs, info = [], {}
     for tid in range(1, n + 1):
         docs = _gen_docs(rng)
-        pres = rng.choice(PRESENTATIONS[1:] + ["key", "key_unsafe", "include_list_unsafe"])
+        pres = rng.choice(PRESENTATIONS[1:] + SAME_FILE + ["key", "key_unsafe", "include_list_unsafe"])
         key = rng.choice(["k", "a", "b"]) if pres in ("key", "key_unsafe") else None
         jobs.append((tid, docs, pres, key))
         info[tid] = (docs, pres, key)
